@@ -260,10 +260,13 @@ func (v *Visitor) visit(s *df.AnalyzerState, entrypoint *df.CallNodeArg) error {
 		Status:        df.VisitorNodeStatus{Kind: df.DefaultTracing},
 	}
 	stack := []*df.VisitorNode{root}
+	verifVisit("source", root, nil)
+	defer verifVisit("end", nil, nil)
 
 	for len(stack) != 0 {
 		cur := stack[len(stack)-1]
 		stack = stack[0 : len(stack)-1]
+		verifVisit("visit", cur, nil)
 
 		// Check that the node does not correspond to a non-constructed summary
 		if !cur.Node.Graph().Constructed {
@@ -793,6 +796,7 @@ func (v *Visitor) addNext(s *df.AnalyzerState,
 			_, hasEdgeInfo := v.prevEdgeInfos[arg]
 			if hasEdgeInfo && ret.Index() != edgeInfo.Index {
 				s.Logger.Tracef("Return node index %d != edgeInfo index %d\n", ret.Index(), edgeInfo.Index)
+				verifVisit("tuple", cur, nextVisitorNode)
 				return stack, false
 			}
 		}
@@ -803,6 +807,7 @@ func (v *Visitor) addNext(s *df.AnalyzerState,
 	if seen[key] || s.Config.ExceedsMaxDepth(cur.Depth) {
 		s.Logger.Tracef("Will not add %v\n", nextNodeWithTrace.Node.String())
 		s.Logger.Tracef("\tseen? %v, depth %v\n", seen[key], cur.Depth)
+		verifVisit("stop", cur, nextVisitorNode)
 		return stack, false
 	}
 
@@ -813,6 +818,7 @@ func (v *Visitor) addNext(s *df.AnalyzerState,
 		s.Logger.Tracef("\tcall lasso? %v\n", nextVisitorNode.Trace.GetLassoHandle() != nil)
 		s.Logger.Tracef("\tclosure-trace: %v\n", nextVisitorNode.ClosureTrace)
 		s.Logger.Tracef("\tclosure lasso? %v\n", nextVisitorNode.ClosureTrace.GetLassoHandle() != nil)
+		verifVisit("lasso", cur, nextVisitorNode)
 		return stack, false
 	}
 
@@ -821,6 +827,7 @@ func (v *Visitor) addNext(s *df.AnalyzerState,
 	cur.AddChild(nextVisitorNode)
 	stack = append(stack, nextVisitorNode)
 	seen[key] = true
+	verifVisit("add", cur, nextVisitorNode)
 	return stack, true
 }
 
